@@ -73,20 +73,20 @@ MdatLo(f, i) == Add(f.mdats[i].off, FromInt(f.mdats[i].h))
 MdatHi(f, i) == Add(f.mdats[i].off, f.mdats[i].size)
 
 ChunkInMdat(f, off, len) ==
-  len = 0 \/ \E i \in 1..Len(f.mdats) :
-               Leq(MdatLo(f, i), off) /\ Leq(Add(off, FromInt(len)), MdatHi(f, i))
+  len = <<>> \/ \E i \in 1..Len(f.mdats) :
+               Leq(MdatLo(f, i), off) /\ Leq(Add(off, len), MdatHi(f, i))
 
 TrackTablesOK(f, t) == Consistent(f.traks[t].tbl)
 
 ChunksInside(f, t) ==
-  LET tb == f.traks[t].tbl  cl == ChunkLens(tb) IN
+  LET tb == f.traks[t].tbl  cl == ChunkLensBig(tb) IN
   \A c \in 1..Len(tb.co.entries) : ChunkInMdat(f, tb.co.entries[c], cl[c])
 
 \* all non-empty chunks of all tracks, as [lo, hi) pairs
 AllChunks(f) ==
-  UNION { LET tb == f.traks[t].tbl  cl == ChunkLens(tb) IN
-          { <<tb.co.entries[c], Add(tb.co.entries[c], FromInt(cl[c])), t, c>> :
-               c \in {c \in 1..Len(tb.co.entries) : cl[c] > 0} }
+  UNION { LET tb == f.traks[t].tbl  cl == ChunkLensBig(tb) IN
+          { <<tb.co.entries[c], Add(tb.co.entries[c], cl[c]), t, c>> :
+               c \in {c \in 1..Len(tb.co.entries) : cl[c] # <<>>} }
         : t \in 1..Len(f.traks) }
 ChunksDisjoint(f) ==
   \A x \in AllChunks(f), y \in AllChunks(f) :
